@@ -171,6 +171,17 @@ Theorem C12_only_requested_removals_lose_characters : forall toks m, toks <> [] 
 Proof. exact (M_subsequence C12_source_removal_is_out_of_band). Qed.
 Print Assumptions C12_only_requested_removals_lose_characters.
 
+(* null vs empty: a pattern with at least one token never yields a NULL string - when no token emits
+   anything (all sections conditional on other types) the result is the EMPTY string, so that the message
+   counts as formatted and sinks print nothing instead of the raw text.  Without any token the result is
+   the message itself (what the code does today). *)
+Theorem C12_result_never_null_with_tokens : forall toks b, toks <> [] -> result_is_null toks b = false.
+Proof. exact result_not_null. Qed.
+Print Assumptions C12_result_never_null_with_tokens.
+Theorem C12_result_without_tokens_is_the_message : forall b, result_is_null [] b = b.
+Proof. exact result_null_no_token. Qed.
+Print Assumptions C12_result_without_tokens_is_the_message.
+
 (* ---- the oracle the check evaluates on the implementation's output ---- *)
 Theorem C12_oracle_holds_of_model : forall toks m, prop_c12_b toks m (format_model toks m) = true.
 Proof. exact (M_oracle C12_source_removal_is_out_of_band). Qed.
